@@ -453,7 +453,8 @@ def _unpack_filter_extensible_header(
 
     # ':dn' is only the dnattrs flag when something else identifies what to
     # match on, '(:dn:=value)' is a matching rule that is called dn.
-    if header_split and header_split[0] == "dn" and (attribute is not None or len(header_split) > 1):
+    # ABNF string literals are case insensitive so ':DN' is also valid.
+    if header_split and header_split[0].lower() == "dn" and (attribute is not None or len(header_split) > 1):
         for_dn = True
         header_split.pop(0)
 
